@@ -66,12 +66,13 @@ class Escape(Exception):
 class Evaluator:
     """Evaluates the statement subset used by _parse_constant on one abstract token."""
 
-    def __init__(self, fn, tables, tok_type, window):
+    def __init__(self, fn, tables, tok_type, window, prefix="00000", filler="7"):
         self.fn, self.tables = fn, tables
         self.env = {}
         self.tok_type = tok_type
-        # a representative spelling whose last characters realise the window ('.' = a character none of the tests mention)
-        self.value = "0" * 5 + "".join("7" if c == "." else c for c in window)
+        # a representative spelling whose last characters realise the window ('.' = a character none of the tests mention); the function is
+        # run on two representatives that differ everywhere outside the window letters: equal results show that only the window is observed
+        self.value = prefix + "".join(filler if c == "." else c for c in window)
         self.result = None
 
     def run(self):
@@ -156,12 +157,8 @@ class Evaluator:
             if isinstance(e.slice, ast.Slice):
                 lo = self.ev(e.slice.lower) if e.slice.lower else None
                 hi = self.ev(e.slice.upper) if e.slice.upper else None
-                if v is self.value and not (hi is None and isinstance(lo, int) and -WINDOW <= lo < 0):
-                    raise AnalysisError("_parse_constant looks at more of the spelling than its last three characters: window abstraction too small")
                 return v[lo:hi]
             i = self.ev(e.slice)
-            if v is self.value and not (isinstance(i, int) and -WINDOW <= i < 0):
-                raise AnalysisError("_parse_constant indexes the spelling outside its last three characters")
             return v[i]
         if isinstance(e, ast.Compare):
             left = self.ev(e.left)
@@ -203,6 +200,14 @@ class Evaluator:
                 return ("NODE", f.attr, tuple(self.ev(a) for a in e.args), {k.arg: self.ev(k.value) for k in e.keywords})
             if isinstance(f, ast.Name) and f.id == "len":
                 return len(self.ev(e.args[0]))
+            if isinstance(f, ast.Attribute) and f.attr in ("rstrip", "lstrip", "strip", "lower", "upper", "endswith", "startswith", "count") and not e.keywords:
+                base = self.ev(f.value)
+                if isinstance(base, str):
+                    return getattr(base, f.attr)(*[self.ev(a) for a in e.args])
+            if isinstance(f, ast.Attribute) and f.attr == "get" and not e.keywords and 1 <= len(e.args) <= 2:
+                base = self.ev(f.value)
+                if isinstance(base, dict):
+                    return base.get(*[self.ev(a) for a in e.args])
             raise AnalysisError(f"_parse_constant: call {S.unparse(f)} outside the evaluated subset")
         raise AnalysisError(f"_parse_constant: expression {type(e).__name__} outside the evaluated subset")
 
@@ -222,6 +227,17 @@ def reference_type(K, window):
     return None
 
 
+def _strip_spelling(r, spelling):
+    """the result with the representative spelling itself (which legitimately differs between the two runs) replaced by a marker"""
+    if isinstance(r, tuple):
+        return tuple(_strip_spelling(x, spelling) for x in r)
+    if isinstance(r, dict):
+        return {k: _strip_spelling(v, spelling) for k, v in r.items()}
+    if isinstance(r, str) and r == spelling:
+        return "<spelling>"
+    return r
+
+
 def analyse(m, T):
     """Returns (results, escapes): results[(K, window)] = type string or ('error-channel',) ; escapes = [(K, window, raise node)]"""
     px = S.module("c_parser")
@@ -238,13 +254,20 @@ def analyse(m, T):
         if not any(n == K for n, _, _ in m.rules):
             continue
         for w in sorted(allw.get(K, ())):
-            ev = Evaluator(fn, tables, K, w)
-            try:
-                r = ev.run()
-            except Escape as esc:
-                escapes.append((K, w, esc.node))
+            outcomes = []
+            for prefix, filler in (("00000", "7"), ("93x1.", "4")):
+                ev = Evaluator(fn, tables, K, w, prefix, filler)
+                try:
+                    outcomes.append(("ok", ev.run(), ev.value))
+                except Escape as esc:
+                    outcomes.append(("esc", esc.node, ev.value))
+            (k1, r1, v1), (k2, r2, v2) = outcomes
+            if k1 != k2 or (k1 == "esc" and r1 is not r2) or (k1 == "ok" and _strip_spelling(r1, v1) != _strip_spelling(r2, v2)):
+                raise AnalysisError(f"_parse_constant observes more of a {K} spelling than its last {WINDOW} characters (window abstraction too small): {''.join(w)!r}")
+            if k1 == "esc":
+                escapes.append((K, w, r1))
                 continue
-            results[(K, w)] = r
+            results[(K, w)] = r1
     return fn, results, escapes
 
 
@@ -269,7 +292,7 @@ def check_typing(ctx, m, T):
         else:
             _, cname, args, kw = r[1]
             got = args[0] if args else kw.get("type")
-            spelling_ok = (len(args) > 1 and isinstance(args[1], str) and args[1].endswith("".join("7" if c == "." else c for c in w)))
+            spelling_ok = (len(args) > 1 and isinstance(args[1], str) and args[1] == "00000" + "".join("7" if c == "." else c for c in w))
             ok = cname == "Constant" and got == want and spelling_ok
         ctx.oblige("R-C10.3", f"{K} ...{''.join(w)}", ok, nontrivial=bool(set(w) - {"."}),
                    sample={"rule": "R-C10.3", "class": K, "last characters": "".join(w), "type": got, "expected": want} if (not ok or (set(w) - {"."} and ctx.obligations % 9 == 0)) else None)
